@@ -44,7 +44,7 @@ ASSUMPTIONS = [
     '.run default CLOSE ON: named SELECT queries in all shapes; named BALANCES/JOURNAL/PRINT only without FROM or with an explicit CLOSE (where both readings of the property agree)',
     '.tables/.describe/.explain output text and warnings text are never compared',
 ]
-PROBES = ['several_lines_in_one_cmdloop', 'bare_non_legacy_word', 'named_query_text_typed_after_run', 'render_after_setting_change', 'numberify_on_render', 'csv_render', 'boxed_unicode_render', 'empty_text_result',
+PROBES = ['bookkeeping_command', 'several_lines_in_one_cmdloop', 'bare_non_legacy_word', 'named_query_text_typed_after_run', 'render_after_setting_change', 'numberify_on_render', 'csv_render', 'boxed_unicode_render', 'empty_text_result',
           'run_default_close_applied', 'run_explicit_close_kept', 'invalid_set_rejected', 'either_or_value', 'writer_fault_prefix',
           'second_session_isolated', 'cmdloop_error_path', 'dot_keyword_not_executed', 'legacy_bare_command', 'print_statement',
           'cli_output_file', 'cli_quiet_with_errors', 'cli_stdin_query', 'cli_init_file', 'nullvalue_rendered', 'expand_render']
@@ -222,7 +222,10 @@ def generate(rng, tier, run):
                     ops.append({'op': 'run', 'q': None, 'form': 'plain'})
             elif r < 0.9:
                 ops.append(rng.choice([{'op': 'tables'}, {'op': 'describe', 'what': rng.choice(['postings', 'entries', 'nosuch', 'position'])},
-                                       {'op': 'explain', 'stmt': rng.randrange(len(pool))}]))
+                                       {'op': 'explain', 'stmt': rng.randrange(len(pool))},
+                                       {'op': 'misc', 'text': '.errors'}, {'op': 'misc', 'text': '.reload'},
+                                       {'op': 'misc', 'text': '.history'}, {'op': 'misc', 'text': '.clear'},
+                                       {'op': 'misc', 'text': '.parse ' + rng.choice(pool)}, {'op': 'misc', 'text': '.run'}]))
             elif r < 0.96:
                 ops.append(rng.choice([{'op': 'unknown', 'text': '.foo'}, {'op': 'unknown', 'text': '.selectx 1'},
                                        {'op': 'bareword', 'text': 'tables'}, {'op': 'bareword', 'text': 'describe postings'},
@@ -658,6 +661,13 @@ def execute(case, keep_log=False):
                 log.add(where, k, line, bool(got), core.exc_class(exc) if exc else None)
                 if k != 'explain' and exc is not None:
                     violation('introspection-raised', where, op, 'no exception', core.exc_class(exc))
+            elif k == 'misc':
+                # bookkeeping commands: their output is not compared; they must not disturb the session
+                got, err, so, exc, _ = feed(ci, op['text'])
+                log.add(where, k, op['text'].split()[0], core.exc_class(exc) if exc else None)
+                S.probes['bookkeeping_command'] += 1
+                if exc is not None and not op['text'].startswith('.parse'):
+                    violation('introspection-raised', where, op, 'no exception', f'{core.exc_class(exc)}: {exc}'[:200])
             elif k == 'bareword':
                 # only a fixed set of legacy commands is accepted without the dot; any other bare line is a
                 # statement for the query parser - here an invalid one: an error, no command output
@@ -889,7 +899,7 @@ def _line(case, op):
         return ('.set ' if k == 'set' else 'set ') + op['name'] + ' ' + shlex.quote(op['value'])
     if k == 'run':
         return '.run ' + (case['world']['named'][op['q']]['name'] if op['q'] is not None else 'nosuchquery') + f' <{op["form"]}>'
-    if k in ('unknown', 'dotkw', 'bareword'):
+    if k in ('unknown', 'dotkw', 'bareword', 'misc'):
         return op['text']
     if k == 'script':
         return '<one cmdloop call> ' + ' | '.join(_line(case, sub) for sub in op['lines'])
